@@ -58,6 +58,9 @@ type jsOp struct {
 	Retry int64  `json:"retry,omitempty"`
 	N     int    `json:"n,omitempty"`
 	Fault string `json:"fault,omitempty"`
+	// SameName: the foreign Pod is controlled by a Job with this Job's NAME but another UID
+	// (a Pod left over from a deleted Job of the same name)
+	SameName bool `json:"sameName,omitempty"`
 }
 
 var kstepCtor = map[string]string{"schedule": "KSchedule", "run": "KRun", "succeed": "KSucceed", "fail": "KFail", "oom": "KOom", "terminate": "KTerminate", "vanish": "KVanish"}
@@ -295,6 +298,10 @@ func (im *jsImpl) apply(o jsOp, m *mJob) jsObs {
 			}
 			p := m.podObj(mPod{Name: name, Hash: o.Hash, Index: ix, Retry: o.Retry, Controlled: false, Phase: "Pending"})
 			p.Status.ContainerStatuses = nil
+			if o.SameName {
+				tr := true
+				p.OwnerReferences = []metav1.OwnerReference{{APIVersion: "execution.furiko.io/v1alpha1", Kind: "Job", Name: jobName, UID: "uid-of-an-older-job", Controller: &tr}}
+			}
 			if err := im.api.createPodRaw(p); err != nil {
 				panic(err)
 			}
@@ -386,6 +393,14 @@ func runJobSync(ctx *RunCtx) *Result {
 		m := g.genJob()
 		// a fresh, admitted, not yet started Job
 		m.Start, m.Kill, m.Deletion, m.AdmErr, m.OldFinish, m.Tasks = nil, nil, nil, false, nil, nil
+		retryFocus := c.Chance(1, 4) // staggered failures of several indexes with a retry delay
+		if retryFocus {
+			m.Shape, m.Count = "count", int64(2+c.Intn(2))
+			m.MaxAttempts = 3
+			m.RetryDelay = Pick(c, []int64{30, 60})
+			m.Strategy = Pick(c, []string{"", "All"})
+			m.init()
+		}
 		m.Finalizer = true // admitted Jobs always carry the delete-dependents finalizer (C16)
 		cfg := jsCfg{}
 		if c.Chance(2, 3) {
@@ -476,6 +491,12 @@ func runJobSync(ctx *RunCtx) *Result {
 			if !c.Chance(1, 10) {
 				do(jsOp{Kind: "start"})
 			}
+			if c.Chance(1, 5) {
+				// objects that already occupy task names before the Job creates its tasks
+				for f := 0; f < 1+c.Intn(2); f++ {
+					do(jsOp{Kind: "foreign", Hash: Pick(c, m.Hashes), Retry: 0, SameName: c.Bool()})
+				}
+			}
 			settle()
 			do(jsOp{Kind: "sync"})
 		}
@@ -483,6 +504,31 @@ func runJobSync(ctx *RunCtx) *Result {
 		faulty := c.Chance(1, 3) // this history injects faults
 		for k := 0; k < nops; k++ {
 			pods := im.api.listPods()
+			if retryFocus && script == "" {
+				// fail live Pods one at a time, let a fraction of the delay pass, reconcile
+				switch c.Intn(5) {
+				case 0, 1:
+					var live []*corev1.Pod
+					for _, pd := range pods {
+						if podAlive(pd) && pd.DeletionTimestamp == nil {
+							live = append(live, pd)
+						}
+					}
+					if len(live) > 0 {
+						pd := Pick(c, live)
+						if !im.api.scheduled[pd.Name] {
+							do(jsOp{Kind: "kubelet", Name: pd.Name, Step: "schedule"})
+						}
+						do(jsOp{Kind: "kubelet", Name: pd.Name, Step: "run"})
+						do(jsOp{Kind: "kubelet", Name: pd.Name, Step: Pick(c, []string{"fail", "fail", "fail", "succeed"})})
+					}
+				case 2, 3:
+					do(jsOp{Kind: "clock", T: im.api.now() + Pick(c, []int64{1, m.RetryDelay / 4, m.RetryDelay / 2, m.RetryDelay/2 + 1, m.RetryDelay - 1, m.RetryDelay})})
+				}
+				settle()
+				do(jsOp{Kind: "sync"})
+				continue
+			}
 			switch r := c.Intn(100); {
 			case r < 30: // sync (usually with fresh caches)
 				if !lag || c.Chance(2, 3) {
@@ -538,7 +584,7 @@ func runJobSync(ctx *RunCtx) *Result {
 				do(jsOp{Kind: "delete"})
 			case r < 89:
 				if len(m.Hashes) > 0 {
-					do(jsOp{Kind: "foreign", Hash: Pick(c, m.Hashes), Retry: int64(c.Intn(int(m.MaxAttempts)))})
+					do(jsOp{Kind: "foreign", Hash: Pick(c, m.Hashes), Retry: int64(c.Intn(int(m.MaxAttempts))), SameName: c.Bool()})
 				}
 			case r < 93:
 				if faulty {
